@@ -251,8 +251,15 @@ def _run(V, work, tier):
         results = list(ex.map(lambda j: hostile_one(binary, j[1]), jobs))
     counts = {}
     for (r, rec), o in zip(jobs, results):
-        counts[o["outcome"]] = counts.get(o["outcome"], 0) + 1
         name = "%s/%s/%s/%s" % (r["kind"], r["what"], r["shape"], r["entry"])
+        if o["outcome"] == "wedge":
+            # no answer within a minute next to thirteen other processes: asked again, alone, with four minutes (a program
+            # that needs most of a minute on an idle machine - the ring comparison of the known finding - runs out of its
+            # minute on a loaded one; what counts is what it does, not how long the machine took)
+            o2 = hostile_one(binary, dict(rec, wedge_ms=240000), timeout=400)
+            V.notes.append("%s did not answer within 60 s under load; alone, with 240 s: %s" % (name, o2["outcome"]))
+            o = o2
+        counts[o["outcome"]] = counts.get(o["outcome"], 0) + 1
         ok = o["outcome"] in r["allowed"]
         late = o["ms"] > DEADLINE + SLACK
         if ok and late:
